@@ -279,7 +279,7 @@ def r2(ctx):
 def r3(ctx):
     facts = ctx.facts
     rule = Rule("C16.R3", "ip_filter shape and limits: refuse at count >= limit, same /24 counted, no IPv4 unrestricted; limits 10 / 2; installed iff ip_limit",
-                floor=6, engine="A-aff + A-prov + A-dom")
+                floor=7, engine="A-aff + A-prov + A-dom")
     f = facts.one(r"crate::kbucket::filter::ip_filter")
     rule.analysed(f)
     prov = Prov(f, facts)
@@ -349,6 +349,25 @@ def r3(ctx):
                     sub_ok = True
     rule.check(sub_ok, "same subnet = first three IPv4 octets of the candidate and of the stored value are equal", "ip_filter|subnet",
                "ip_filter no longer compares octets()[0..3] of the inserted value with those of each stored value", loc=f.loc(f.line))
+    # every stored value is looked at: a candidate with an IPv4 address is accepted (`true`) only once the iterator is exhausted, i.e. past
+    # the None edge of `other_vals.next()` - a `break` out of the loop would hide all values that come later in the iteration order
+    nexts = [(bi, t) for bi, t in f.calls() if callee_matches(t, r"Iterator>::next$") and "other_vals" in fmt_short(prov.operand(t.args[0]))]
+    exhausted = []
+    for bi, t, e in g.switches():
+        if e[0] == "discr" and e[1][0] == "call" and re.search(r"Iterator>::next$", short(e[1][1])) and "other_vals" in fmt_short(e[1]):
+            exhausted += [(bi, s_) for s_ in t.succs() if s_ not in [tb for v, tb in t.vals if v == 1]]
+    has_ip = []
+    for bi, t, e in g.switches():
+        if e[0] == "discr" and fmt_short(e[1]) == "Enr::ip4(value_to_be_inserted)":
+            has_ip += [(bi, tb) for v, tb in t.vals if v == 1]
+    ok = bool(nexts) and bool(exhausted) and bool(has_ip) and bool(true_sites)
+    for sb, tgt in has_ip:
+        r = f.reachable(tgt, removed_edges=exhausted)
+        if any(x in r for x in true_sites):
+            ok = False
+    rule.check(ok, "a candidate with an IPv4 address is accepted only after every stored value was visited (iterator exhausted)", "ip_filter|early-exit",
+               "ip_filter can accept a candidate before it has looked at every stored value (the loop is left early): values later in the iteration order are not counted",
+               loc=f.loc(f.line))
     # no IPv4 -> true without counting
     none_edges = []
     for bi, t, e in g.switches():
